@@ -186,6 +186,8 @@ reg(["C05", "C01"], H("d10::d_ipfix_two_fields", unwind=4, timeout=2400, mem_gb=
 reg(["C05", "C01"], H("d10::d_ipfix_three_records", unwind=5, timeout=2400, mem_gb=30,
     desc="ipfix::Data::parse, one 2-byte field, 7-byte body: 3 records (recursion depth 4) + 1 padding byte",
     bounds={"body_bytes": 7, "fields": 1, "records": 3}, assumptions=[_K9]))
+reg(["C05", "C01"], H("d10::d_ipfix_two_records", unwind=3, loops=[(r"drop_glue|drop_in_place", 3)], timeout=2400, mem_gb=30, mem_est=12,
+    desc="ipfix::Data::parse, one 2-byte field, 5-byte body: 2 records + 1 padding byte", bounds={"body_bytes": 5, "fields": 1, "records": 2}, assumptions=[_K9]))
 reg(["C05", "C01"], H("d10::d_ipfix_varlen_one_record", unwind=5, timeout=2400, mem_gb=30,
     desc="ipfix::Data::parse, variable-length field (1-byte and 255+2-byte prefix) + 1-byte field, one record",
     bounds={"body_bytes": "<=8", "varlen_value_bytes": "1..=4"}, assumptions=[_K9]))
@@ -299,9 +301,9 @@ reg(["C17"], H("d9::d_v9_unknown_field_off", unwind=8, feature="off", timeout=15
     desc="feature off: V9 data flowset under a template with an unknown field type yields no record",
     bounds={"body_bytes": 6, "field_type": "every number the library maps to Unknown", "field_length": "1..=3"},
     assumptions=[_OFF, "kernel replaced by the model 'Unknown => Err' that k::k_unknown_off shows exact"]))
-reg(["C17"], H("d10::d_ipfix_unknown_field_off", unwind=8, feature="off", timeout=1500, mem_gb=12,
+reg(["C17"], H("d10::d_ipfix_unknown_field_off", unwind=3, loops=[(r"drop_glue|drop_in_place", 3)], feature="off", timeout=1800, mem_gb=30, mem_est=12,
     desc="feature off: IPFIX data set under a template with an unknown field type is not decoded",
-    bounds={"body_bytes": 6, "field_type": "every number < 32768 the library maps to Unknown", "field_length": "1..=3"},
+    bounds={"body_bytes": 4, "field_type": "every number < 32768 the library maps to Unknown", "field_length": "1..=3 or 65535 (variable length)"},
     assumptions=[_OFF, "kernel replaced by the model 'Unknown => Err' that k::k_unknown_off shows exact"]))
 reg(["C17"], H("s9::s_v9_template_2f", unwind=5, feature="off", timeout=1500, mem_gb=12, tier="thorough",
     desc="feature off: V9 template flowset decoding/caching equals the default build's reference", bounds={"shape": "1 record x 2 fields"}, assumptions=[_OFF]))
